@@ -1,2 +1,3 @@
 pub mod sink;
 pub mod net;
+pub mod dws;
